@@ -37,6 +37,7 @@ class Acc:
         self.outcomes = {}
         self.samples = []
         self.violations = []
+        self._vkeys = set()
         self.caps = []
         self.counters = {}
         self.validated = 0
@@ -50,6 +51,10 @@ class Acc:
             self.samples.append(s)
 
     def violation(self, key, what, replay=None):
+        self.counters["violating_cases"] = self.counters.get("violating_cases", 0) + 1
+        if key in self._vkeys:
+            return
+        self._vkeys.add(key)
         self.violations.append({"key": key, "what": what, "replay": replay})
 
     def merge(self, other):
@@ -61,7 +66,10 @@ class Acc:
             self.outcomes.setdefault(k, v)
         for s in other.samples:
             self.sample(s)
-        self.violations.extend(other.violations)
+        for v in other.violations:
+            if v["key"] not in self._vkeys:
+                self._vkeys.add(v["key"])
+                self.violations.append(v)
         self.caps.extend(other.caps)
         for k, v in other.counters.items():
             self.counters[k] = self.counters.get(k, 0) + v
